@@ -162,6 +162,45 @@ def dep_order_group(route):
                     elif st != "unsat":
                         res["errors"].append("QF_FP query %s inconclusive (%s)" % (ob.name, st))
                     res["obligations"].append(ob.as_dict())
+        # vacuity guard: the Float64 encoding of the loop can tell two orders apart at all (the first three-element list, reversed),
+        # and the doubles it finds do separate the two sums in Python's own arithmetic
+        done = False
+        for p in m.pops[0].pars:
+            for dep_name, deps in (p.deps or {}).items():
+                if len(deps) == 3 and not done:
+                    done = True
+                    xs = [z3.FP("r%d" % i, fp.F64) for i in range(3)]
+                    dts = [float(d.dt) if isinstance(d, am.Link) else None for d in deps]
+
+                    def rfold(idx):
+                        acc = fp.fv(0.0)
+                        for i in idx:
+                            acc = z3.fpAdd(fp.RNE, acc, z3.fpDiv(fp.RNE, xs[i], fp.fv(dts[i])) if dts[i] else xs[i])
+                        return acc
+
+                    s = z3.Solver()
+                    s.set("timeout", 120000)
+                    for x in xs:
+                        s.add(z3.fpGEQ(x, fp.fv(0.0)), z3.fpLEQ(x, fp.fv(1e6)))
+                    s.add(z3.Not(z3.fpEQ(rfold([0, 1, 2]), rfold([2, 1, 0]))))
+                    t1 = time.time()
+                    st = str(s.check())
+                    ob = Obligation("reversed_order_is_distinguishable[%s|%s]" % (p.name, dep_name))
+                    ob.kind = "reach"
+                    ob.status = st
+                    ob.time = time.time() - t1
+                    tsolve += ob.time
+                    nq += 1
+                    ob.meta = dict(mode="IEEE-754 binary64 (QF_FP)", solver="z3-%s" % z3.get_version_string())
+                    if st == "sat":
+                        v = [fp.model_double(s.model(), x) for x in xs]
+                        t = [v[i] / dts[i] if dts[i] else v[i] for i in range(3)]
+                        if _bits((0.0 + t[0]) + t[1] + t[2]) == _bits((0.0 + t[2]) + t[1] + t[0]):
+                            res["errors"].append("the Float64 encoding disagrees with Python arithmetic on %r" % (v,))
+                        ob.model = {"r%d" % i: repr(v[i]) for i in range(3)}
+                    res["obligations"].append(ob.as_dict())
+        if not done:
+            res["errors"].append("no three-element dependency list in the model (vacuity guard not run)")
         # reachability witness: the replay route really evaluates the function on the values written (original == copy here)
         for pi in (0, 1):
             bad, detail = replay_values(route, pi, "deaths", "mort___flow", [0.1, 0.2, 0.3, 0.7][: len(_build(route)[0].pops[pi].par_lookup["deaths"].deps["mort___flow"])])
